@@ -85,10 +85,10 @@ def gen():
 
     # ---- fill_orig_b2c
     fo = F.fn_body(mod, "fill_orig_b2c", MOD)
-    m = need(r"self\.m2o_2\.resize\(self\.original\.len\(\)\s*\+\s*1,\s*usize::MAX\);\s*let\s+mut\s+max\s*=\s*0;\s*"
-             r"for\s+\(ch_idx,\s*\(b_idx,\s*_\)\)\s+in\s+self\.original\.char_indices\(\)\.enumerate\(\)\s*\{\s*self\.m2o_2\[b_idx\]\s*=\s*ch_idx;\s*max\s*=\s*ch_idx;?\s*\}\s*"
-             r"self\.m2o_2\[self\.original\.len\(\)\]\s*=\s*max\s*\+\s*(\d+);", fo, "fill_orig_b2c")
-    out.append("Definition orig_b2c_sentinel_inc : nat := %d.\n" % int(m.group(1)))
+    m = need(r"self\.m2o_2\.resize\(self\.original\.len\(\)\s*\+\s*1,\s*usize::MAX\);\s*let\s+mut\s+count\s*=\s*(\d+);\s*"
+             r"for\s+\(ch_idx,\s*\(b_idx,\s*_\)\)\s+in\s+self\.original\.char_indices\(\)\.enumerate\(\)\s*\{\s*self\.m2o_2\[b_idx\]\s*=\s*ch_idx;\s*count\s*=\s*ch_idx\s*\+\s*(\d+);?\s*\}\s*"
+             r"self\.m2o_2\[self\.original\.len\(\)\]\s*=\s*count;", fo, "fill_orig_b2c")
+    out.append("Definition orig_b2c_count_init : nat := %d.\nDefinition orig_b2c_count_inc : nat := %d.\n" % (int(m.group(1)), int(m.group(2))))
 
     # ---- accessors
     for fn, pat, what in [
